@@ -77,6 +77,19 @@ def run(repo: Repo, chk: Check) -> None:
                 nsites += 1
                 ok, why = to_bytes_ok(repo, world, lens, f, n)
                 chk.ob("O1", Site.of(f, n), ok, why)
+            # ---- struct.pack capacity (struct.error for an out-of-range field)
+            elif isinstance(n, ast.Call) and repo.dotted(n.func, f.mod) == "struct.pack":
+                nsites += 1
+                from .c08 import _pack_sink
+
+                sk = _pack_sink(repo, f, n)
+                if sk is None:
+                    chk.ob("O1", Site.of(f, n), False, f"{unparse(n)[:60]}: struct.pack with a format this rule cannot bound (struct.error escapes)")
+                else:
+                    val, width, signed, _o = sk
+                    lo_, hi_ = (-(1 << (8 * width - 1)), (1 << (8 * width - 1)) - 1) if signed else (0, (1 << (8 * width)) - 1)
+                    iv = res.iv_of(val)
+                    chk.ob("O1", Site.of(f, n), iv.within(lo_, hi_), f"{unparse(val)} in {iv} fits the {width} byte field" if iv.within(lo_, hi_) else f"{unparse(val)} can be {iv} at a {width} byte struct field: struct.error escapes instead of a deliberate error")
             # ---- subscripts
             elif isinstance(n, ast.Subscript) and not isinstance(n.slice, ast.Slice) and isinstance(n.ctx, ast.Load):
                 nsites += 1
